@@ -259,8 +259,21 @@ def _r38(ctx, prog, M):
                 ctx.violation("R3.8", "%s@%s" % (f.qualname, a), "%s(%s) inserts an element taken from %s: inserting it a second time moves it out of "
                               "the parent it was given first, which is left without that child" % (a, ast.unparse(arg)[:40], src),
                               file=f.file, line=n.lineno)
+    # ... and every factory of an element class (`new*`) hands out an element of its own: the root of a part, or a sub-tree about to
+    # be inserted by the caller, must not be one object shared by every caller
+    nfac = 0
+    for f in prog.all_functions():
+        if not f.module.name.startswith("pptx.oxml") or f.cls is None or not M.is_oxml_class(f.cls) or not f.name.startswith("new"):
+            continue
+        nfac += 1
+        for r_ in [x for x in ast.walk(f.node) if isinstance(x, ast.Return) and x.value is not None]:
+            src = shared_source(r_.value, f)
+            if src:
+                ctx.violation("R3.8", "%s:return" % f.qualname, "the factory returns %s: every caller gets the same element - two parts (or two parents) "
+                              "built from it share one tree, and what is written through one shows in the other" % src, file=f.file, line=r_.lineno)
     ctx.count("insertion_sites", nsites)
-    ctx.ok("R3.8", "insertion sites", sample={"sites": nsites, "inserted_from_a_long_lived_store": 0})
+    ctx.count("element_factories", nfac)
+    ctx.ok("R3.8", "insertion sites", sample={"sites": nsites, "factories": nfac, "inserted_or_returned_from_a_long_lived_store": 0})
 
 
 def _discount_completed(prog, M, T, S, sink, root, probs, hints):
